@@ -2,7 +2,7 @@
   Rivia.Lemmas.StdfsMain — C02: the per-step refinement theorem, assembled from the per-operation
   simulation lemmas.
 -/
-import Rivia.Lemmas.StdfsWalk
+import Rivia.Lemmas.StdfsChmod
 
 namespace Rivia.Lemmas.StdfsL
 open Rivia Rivia.Memfs Rivia.File Rivia.Spec Rivia.Spec.TreeFs Rivia.Posix Rivia.Stdfs
@@ -61,6 +61,26 @@ theorem refines_step (env : Env) (t : T) (op : Op) (r : R Val) (t' : T)
   case appendLines p ls => exact of_sim (sim_appendLines hc p ls ho) h
   case appendLine p l => exact of_sim (sim_appendLine hc p l (by simpa [opOk] using ho)) h
   case readLines p => exact of_sim (sim_readLines hc p) h
+  case chmod p m =>
+    simp only [opOk, Bool.and_eq_true, decide_eq_true_eq] at ho
+    by_cases hm : permOk m = true
+    · rw [if_pos hm] at h
+      have hm' : m < 0o10000 := by simpa [permOk] using hm
+      have key := sim_chmodK hc p (c := { dirs := m, files := m }) ⟨rfl, rfl, hm', hm'⟩ ho.2
+      rw [oct_ne ho.1] at key
+      exact of_sim key h
+    · rw [if_neg hm] at h; cases h
+  case chmodB p c =>
+    simp only [opOk, Bool.and_eq_true, decide_eq_true_eq] at ho
+    by_cases hf : c.follow = true
+    · rw [if_pos hf] at h; cases h
+    · rw [if_neg hf, if_pos ho.1] at h
+      by_cases hp : permOk c.dirs = true ∧ permOk c.files = true
+      · rw [if_pos hp] at h
+        have hd' : c.dirs < 0o10000 := by simpa [permOk] using hp.1
+        have hf' : c.files < 0o10000 := by simpa [permOk] using hp.2
+        exact of_sim (sim_chmodK hc p ⟨ho.1, by simpa using hf, hd', hf'⟩ ho.2) h
+      · rw [if_neg hp] at h; cases h
   case chown p uid gid => exact of_sim (sim_chownK hc p (some uid) (some gid) true ho) h
   case chownB p c =>
     obtain ⟨cu, cg, cf, cr⟩ := c
